@@ -125,10 +125,20 @@ def merge_helper_kind(node):
                 subj.append(n.args[0])
         return subj
     for iff in [n for n in ast.walk(lp) if isinstance(n, ast.If)]:
-        if any(r in list(ast.walk(iff)) for r in rec) and not any(r in [x for st in iff.orelse for x in ast.walk(st)] for r in rec):
-            subj = dict_tests(iff.test)
-            if any(isinstance(x, ast.Name) and x.id == V for x in subj) and any(is_entry(x) for x in subj):
-                return "deepmerge"
+        in_body = any(r in [x for st in iff.body for x in ast.walk(st)] for r in rec)
+        in_else = any(r in [x for st in iff.orelse for x in ast.walk(st)] for r in rec)
+        if in_body == in_else:
+            continue
+        subj = dict_tests(iff.test)
+        both = any(isinstance(x, ast.Name) and x.id == V for x in subj) and any(is_entry(x) for x in subj)
+        # polarity of the dict tests on the path of the recursive call: `if A and B: recurse` or `if not (A and B): assign else: recurse`
+        # (also the De Morgan spelling `if not A or not B`)
+        negated = isinstance(iff.test, ast.UnaryOp) and isinstance(iff.test.op, ast.Not)
+        demorgan = isinstance(iff.test, ast.BoolOp) and isinstance(iff.test.op, ast.Or) and all(isinstance(v_, ast.UnaryOp) and isinstance(v_.op, ast.Not) for v_ in iff.test.values)
+        conj = isinstance(iff.test, ast.BoolOp) and isinstance(iff.test.op, ast.And) and not any(isinstance(v_, ast.UnaryOp) for v_ in iff.test.values)
+        inner_conj = negated and isinstance(iff.test.operand, ast.BoolOp) and isinstance(iff.test.operand.op, ast.And)
+        if both and ((in_body and conj) or (in_else and (inner_conj or demorgan))):
+            return "deepmerge"
     return None
 
 
